@@ -166,26 +166,39 @@ def run(c):
     # ---- 2. programs --------------------------------------------------------------------------------------
     progs = []
     combos = [(0, "each"), (2, "one"), (2, "each"), (0, "one")]
-    nsel = c.pick(240, 2400)
+    nsel = c.pick(160, 1000)
     sel = select(behs, nsel, c.seed)
-    probe = dict(qs=[1, 2, 3, 4], ks=[1, 3], fs=[0, 1, 2])
+    probe = dict(qs=c.pick([1, 2, 3], [1, 2, 3, 4]), ks=[1, 3], fs=[0, 1, 2])
     for i, b in enumerate(sel):
-        todo = [combos[i % 4]] if quick else combos
+        todo = [combos[i % 4]] if quick else [combos[i % 4], combos[(i + 1) % 4]]
         if i % c.pick(6, 3) == 0:
             todo = todo + [(1, "each" if i % 2 else "one")]
         for usage, policy in todo:
             progs.append(dict(name="b%d_u%d%s" % (i, usage, policy[0]), usage=usage, buffer=b["buf"], policy=policy,
                               steps=steps_of(b), **probe))
     # witnesses of the named deviations and other as-is behaviours (buffer modes 1 and 2)
-    wsel = select(cex_asis, c.pick(40, 400), c.seed) + select(behs_asis, c.pick(20, 200), c.seed + 1)
+    wsel = select(cex_asis, c.pick(24, 400), c.seed) + select(behs_asis, c.pick(12, 200), c.seed + 1)
     for i, b in enumerate(wsel):
         usage, policy = combos[i % 4]
         progs.append(dict(name="w%d_u%d%s" % (i, usage, policy[0]), usage=usage, buffer=b["buf"], policy=policy,
                           steps=steps_of(b), **probe))
-    gen_main = dict(count=c.pick(12, 120), len=c.pick(30, 60), nids=10, nv=6, np=2, configs=[[0, 0], [2, 0], [2, 2], [0, 2]],
+    gen_main = dict(count=c.pick(8, 120), len=c.pick(25, 60), nids=10, nv=6, np=2, configs=[[0, 0], [2, 0], [2, 2], [0, 2]],
                     ks=[0, 1, 3, 12], p_optimize=0.1, probe_every=1, probe_sample=8)
     gen_side = dict(count=c.pick(6, 40), len=c.pick(20, 40), nids=6, nv=6, np=2, configs=[[1, 0], [2, 1], [1, 2], [0, 1]],
                     ks=[1, 3, 12], p_optimize=0.12, probe_every=1, probe_sample=8)
+
+    # stores larger than the batch sizes of Optimize (200 vectors per transaction) and Consolidate (100)
+    def big(name, usage, buf, n, tail):
+        items = [[i, 1 + (i * 7 + i // 6) % 6, 1 + i % 2] for i in range(1, n + 1)]
+        steps = [dict(op="UpsertBatch", items=items[:n // 2]), dict(op="UpsertBatch", items=items[n // 2:]),
+                 dict(op="Optimize")] + tail
+        return dict(name=name, usage=usage, buffer=buf, policy="one", steps=steps, qs=[1, 2, 3, 4], ks=[n + 10], fs=[0, 1],
+                    nids=n)
+    tail = ([dict(op="Delete", id=i) for i in (1, 200, 201, 450)] +
+            [dict(op="Upsert", id=i, v=1 + i % 6, p=2) for i in (2, 200, 399)] + [dict(op="Optimize")])
+    bigs = [big("big_u2b0", 2, 0, 450, tail), big("big_u0b2", 0, 2, 150, [])]
+    if not quick:
+        bigs += [big("big_u0b0", 0, 0, 450, tail), big("big_u1b0", 1, 0, 450, tail), big("big_u2b2", 2, 2, 450, tail)]
 
     binp = c.build("vectorstore")
     shards = c.pick(4, 6)
@@ -193,6 +206,7 @@ def run(c):
     for s in range(shards):
         plan = dict(vecs=vecs, nids=3, programs=progs[s::shards])
         plans.append(plan)
+    plans.append(dict(vecs=vecs, nids=3, programs=bigs))
     plans.append(dict(vecs=vecs, nids=3, programs=[], gen=gen_main, prefix="rm"))
     plans.append(dict(vecs=vecs, nids=3, programs=[], gen=gen_side, prefix="rs"))
 
@@ -235,21 +249,30 @@ def run(c):
     by_name = {name: (cl, nevs) for name, cl, nevs in items}
     if len(by_name) != len(items):
         raise vlib.InfraError("duplicate program names")
-    packed = [(name, pack(strip(nevs))) for name, cl, nevs in items]
+    isbig = lambda n: n.startswith("big")
+    packed = [(name, pack(strip(nevs))) for name, cl, nevs in items if not isbig(name)]
+    packed_big = [(name, pack(strip(nevs))) for name, cl, nevs in items if isbig(name)]
     # strict validation of everything, a few TLC processes side by side
     par = c.pick(4, 6)
-    groups = [packed[i::par] for i in range(par)]
-    with concurrent.futures.ThreadPoolExecutor(max_workers=par) as ex:
-        res = list(ex.map(lambda a: bulk_validate(c, "VectorStoreTraceBulk.cfg", a[1], "bulk%d" % a[0]),
-                          enumerate(groups)))
+    jobs = [("VectorStoreTraceBulk.cfg", packed[i::par], "bulk%d" % i) for i in range(par)]
+    jobs.append(("VectorStoreTraceBig.cfg", packed_big, "big"))
+    with concurrent.futures.ThreadPoolExecutor(max_workers=par + 1) as ex:
+        res = list(ex.map(lambda j: bulk_validate(c, *j), jobs))
     rejected = sorted(set(n for part in res for n, _ in part))
     # is the whole log of a rejected trace explained by the named deviations of the pinned commit?
-    cand = [(n, pack(strip(by_name[n][1]))) for n in rejected if by_name[n][0][3] != "0"]
-    unexplained = set(n for n, _ in bulk_validate(c, "VectorStoreTraceAsIsBulk.cfg", cand, "asis")) if cand else set()
-    explained = set(n for n, _ in cand) - unexplained
+    unexplained, ncand = set(), 0
+    for cfg, sel_big in (("VectorStoreTraceAsIsBulk.cfg", False), ("VectorStoreTraceAsIsBig.cfg", True)):
+        cand = [(n, pack(strip(by_name[n][1]))) for n in rejected if by_name[n][0][3] != "0" and isbig(n) == sel_big]
+        ncand += len(cand)
+        if cand:
+            unexplained |= set(n for n, _ in bulk_validate(c, cfg, cand, "asis"))
+    explained = set(n for n in rejected if by_name[n][0][3] != "0") - unexplained
     # which call exactly: the unpacked logs of the rejected traces
-    flat = [(n, strip(by_name[n][1])) for n in rejected]
-    where = dict(bulk_validate(c, "VectorStoreTraceBulk.cfg", flat, "flat")) if flat else {}
+    where = {}
+    for cfg, sel_big in (("VectorStoreTraceBulk.cfg", False), ("VectorStoreTraceBig.cfg", True)):
+        flat = [(n, strip(by_name[n][1])) for n in rejected if isbig(n) == sel_big]
+        if flat:
+            where.update(dict(bulk_validate(c, cfg, flat, "flat")))
     per_class = {}
     for name in rejected:
         cl, nevs = by_name[name]
@@ -347,7 +370,9 @@ def describe(nevs, idx):
         if t == "Upsert":
             out.append("U(%d,v%d,p%d)" % (e["id"], e["v"], e["p"]))
         elif t == "UpsertBatch":
-            out.append("B(%s)" % ",".join("%d:v%d:p%d" % tuple(x) for x in e["items"]))
+            its = e["items"]
+            out.append("B(%s%s)" % (",".join("%d:v%d:p%d" % tuple(x) for x in its[:4]),
+                                    ",... %d items" % len(its) if len(its) > 4 else ""))
         elif t == "Delete":
             out.append("D(%d)" % e["id"])
         elif t == "Optimize":
